@@ -792,14 +792,60 @@ func wrapOnce(c *core.Ctx) {
 		return nil
 	}
 	sites := 0
+	// a function outside the inventory that opens conns without wrapping (the innermost call moved into a
+	// method or helper of its own) passes its role on to the functions that refer to it by name
+	inherited := map[*ast.FuncDecl]string{}
+	passedOn := map[*ast.FuncDecl]bool{}
+	for _, fd := range p.AllFuncDecls(p.Connect) {
+		if p.InInventory("func", core.ConnectPath+"."+core.FuncName(fd)) {
+			continue
+		}
+		opens, wraps := false, false
+		for _, call := range astx.CallsDeep(fd.Body) {
+			if fn := astx.CalleeFunc(info, call); fn != nil && fn.Name() == "NewConn" {
+				if n := astx.RecvNamed(fn); n != nil && n.Obj().Name() == "protocolClient" {
+					opens = true
+				}
+			}
+			if isWrapCall(call) != nil {
+				wraps = true
+			}
+		}
+		if !opens || wraps {
+			continue
+		}
+		self := info.Defs[fd.Name]
+		for _, g := range p.AllFuncDecls(p.Connect) {
+			if g == fd {
+				continue
+			}
+			ast.Inspect(g.Body, func(n ast.Node) bool {
+				if id, ok := n.(*ast.Ident); ok && self != nil && info.Uses[id] == self {
+					inherited[g] = "opens client conns"
+					passedOn[fd] = true
+				}
+				// methods of generic types are used through an instantiated object
+				if sel, ok := n.(*ast.SelectorExpr); ok && self != nil {
+					if f, ok := info.Uses[sel.Sel].(*types.Func); ok && f.Origin() == self {
+						inherited[g] = "opens client conns"
+						passedOn[fd] = true
+					}
+				}
+				return true
+			})
+		}
+	}
 	for _, fd := range p.AllFuncDecls(p.Connect) {
 		if fd.Recv != nil {
 			if n := astx.RecvNamed(info.Defs[fd.Name].(*types.Func)); n != nil && types.Implements(types.NewPointer(n), iface) {
 				continue // interceptors themselves (chain, recover, UnaryInterceptorFunc)
 			}
 		}
+		if passedOn[fd] {
+			continue
+		}
 		// role: builds a Handler literal, or calls protocolClient.NewConn
-		role := ""
+		role := inherited[fd]
 		ast.Inspect(fd.Body, func(n ast.Node) bool {
 			switch x := n.(type) {
 			case *ast.CompositeLit:
